@@ -134,6 +134,15 @@ def main():
             agrees = conv == r
             if not agrees:
                 detail = "rust %s | model %s" % (r[:200], conv[:200])
+                # the executable model (Keys.v) is where "key file" is defined for the theorems (C18_parse_total etc.):
+                # a parser that ACCEPTS what the model refuses, or returns other octets than the model, accepts "another
+                # input" / mis-parses a key. (A parser that refuses more than the model is a disagreement only.)
+                if msg is None:
+                    cp, cu, cm = conv.split(" ")
+                    for nm, rr, mo in (("parse_openssl_25519_privkey", rp, cp), ("parse_openssl_25519_pubkey", ru, cu), ("parse_openssl_25519_pubkeys_pem_many", rm, cm)):
+                        if ":ok" in rr and rr != mo and not (rr.startswith("M:ok:0:") and not mo.startswith("M:ok")):
+                            msg = "%s returns %s on this input; the model of the key-file forms (Keys.v) gives %s: on any other input than a key file the parsers return an error, and a key parses to its own octets" % (nm, rr[:90], mo[:90])
+                            break
         c = {"id": "c18-%d" % i, "class": re.sub(r"-\d+$", "", cat.split(":")[0]), "nontrivial": len(inp) > 0,
              "meta": {"category": cat, "input_hex": inp[:400], "rust": r[:300]}, "oracle_ok": msg is None, "oracle_msg": msg or "",
              "model_agrees": agrees, "model_detail": detail}
